@@ -688,6 +688,19 @@ def leaf_checks(seed, n, cases, workdir):
     for _ in range(n // 2):
         pairs.append(("".join(r.choice(balpha + ["x", "5"]) for _ in range(r.randint(0, 4))),
                       "".join(r.choice([bracket(), bracket(), "*", "?", "a", "b", "-", "x"]) for _ in range(r.randint(1, 3)))))
+    # bracket bodies made of x-y triples (well-formed, reversed and degenerate ranges next to each other, next to "!" and to stray
+    # hyphens): the class on which fnmatch.translate's chunking and its removal of empty ranges decide the outcome
+    ralpha = ["a", "b", "c", "z", "A", "!", "!", "-", "-", " ", '"', "]", "[", "^", "\\", "0", "9", ".", "/", "&", "~", "|", "*", "?", "x"]
+
+    def range_body():
+        toks = []
+        for _ in range(r.randint(0, 4)):
+            x = r.random()
+            toks.append(r.choice(ralpha) + "-" + r.choice(ralpha) if x < 0.5 else "-" if x < 0.6 else r.choice(ralpha))
+        return "[" + r.choice(["", "", "!"]) + "".join(toks) + r.choice(["]", "]", "]", "]", ""])
+    for _ in range(n // 2):
+        pairs.append(("".join(r.choice(ralpha) for _ in range(r.choice([0, 1, 1, 1, 1, 2, 3]))),
+                      "".join(r.choice([range_body(), range_body(), range_body(), "*", "?", "a", "-", "!"]) for _ in range(r.choice([1, 1, 1, 2, 3])))))
     # patterns and paths of the generated cases (documented forms against real project-relative paths)
     mp = []
     for c in cases[: max(40, n // 40)]:
@@ -775,7 +788,7 @@ def run(tier: str, seed: int, replay: str | None = None) -> int:
                 "directory of the project, the parent or the grandparent of the root; a fraction of projects under an excluded-named parent); "
                 "a case is non-trivial when the recursive root run reports some but not all files of the tree; distinct = distinct (tree, sources, placement)")
     chk.trusted_base += [
-        "Model/Glob.v is a model of CPython's fnmatch (library oracle): validated on every run against fnmatch.fnmatch on generated (name, pattern) pairs (leaf level), including bracket expressions of any shape (hyphens anywhere, reversed ranges, leading ! ^ ] [, backslashes, set operators, unclosed brackets); names and patterns are byte strings (ASCII in the generated class: a non-ASCII character is several bytes to the model but one character to fnmatch)",
+        "Model/Glob.v is a model of CPython's fnmatch (library oracle): validated on every run against fnmatch.fnmatch on generated (name, pattern) pairs (leaf level), including bracket expressions of any shape (hyphens anywhere, well-formed / reversed / degenerate ranges next to each other and next to a '!', leading ! ^ ] [, backslashes, set operators, unclosed brackets); names and patterns are byte strings (ASCII in the generated class: a non-ASCII character is several bytes to the model but one character to fnmatch)",
         "Model/CollectStr.v primitives (PurePath.suffix/.parts, str.strip/rstrip/startswith/endswith) validated against CPython at the leaf level; content.splitlines() of .thailintignore, yaml.safe_load / json.load of the config and os.walk are oracles (the abstract input is the list of lines / the ignore list / the directory tree)",
         "the control flow of _collect_files_fast, lint_file, lint_directory, lint_files, _load_repo_ignores and execute_linting_on_paths is hand-modelled in Model/Collect.v (shape-checked by the translator, fingerprinted, tied by the observable-level correspondence)",
         "observation = set of file_path values of the reported violations with a planted violation in every file; 'the file reached the rules' is inferred from it",
@@ -801,7 +814,7 @@ def run(tier: str, seed: int, replay: str | None = None) -> int:
         else:
             cases = (corpus_cases() if b == 0 else []) + [gen_case(seed, i, max_depth, code_dirs, code_exts) for i in range(b * per_batch, (b + 1) * per_batch)]
         t0 = time.time()
-        impls = pool_map(run_impl, cases, procs=8)
+        impls = pool_map(run_impl, cases, procs=4)
         state["t_impl"] += time.time() - t0
         for im in list(impls):          # the second-state runs are judged as cases of their own
             if im.get("rerun"):
